@@ -29,4 +29,16 @@ def conditions(tier, seed):
                 out.append(Cond('roundtrip_core_%s_s%d' % (st, sh), 'c05_rt.py', dict(which='c05', corpus='core', style=st, shard=sh, nshards=ns),
                                 func='check_roundtrip', timeout=t, bound='core corpus with %s-case keywords' % st,
                                 case_split=['ci'], realised=['program text'], twin=False))
+    # second, synthesised model (classes A/B/C/L, R1 simple, R2 reflexive, R3 linked, function F) with the interpreter's skeletons
+    # and a seeded generated program family; C05 oracle here also ABSOLUTE: the regenerated text, parsed and lifted, is the mini-AST the program was printed from
+    q = tier == 'quick'
+    for sh in range(2):
+        out.append(Cond('synth_core_s%d' % sh, 'c05_gen.py', dict(family='core', shard=sh, nshards=2), func='check', timeout=t,
+                        bound='33 statement skeletons as the body of a function of a synthesised BridgePoint model (shard %d/2)' % sh,
+                        case_split=['program'], realised=['program text'], twin=(sh == 0)))
+    nsh = 2 if q else 16
+    for sh in range(nsh):
+        out.append(Cond('synth_gen_s%d' % sh, 'c05_gen.py', dict(family='gen', seed=seed + 0, count=24 if q else 480, shard=sh, nshards=nsh), func='check', timeout=t,
+                        bound='%d generated programs (seed %d, nesting depth <= 3 per construct) on the synthesised model (shard %d/%d)' % (24 if q else 480, seed + 0, sh, nsh),
+                        case_split=['program'], realised=['program text'], twin=False))
     return out
